@@ -912,6 +912,48 @@ pub fn main(a: &Args) {
         }
         "truncate" => {
             let files = a.u64("files", 10);
+            // degenerate but valid files first: no instance at all (binary: header counts 0 / 0 and only an END chunk; XML: an
+            // empty <roblox> element), an instance without properties, a lone service. Their prefixes must be rejected too.
+            if shard == 0 {
+                let empty = rbx_dom_weak::WeakDom::new(rbx_dom_weak::InstanceBuilder::new("DataModel"));
+                let one = rbx_dom_weak::WeakDom::new(rbx_dom_weak::InstanceBuilder::new("DataModel").with_child(rbx_dom_weak::InstanceBuilder::new("Workspace")));
+                let mut degenerate: Vec<(&str, &str, Vec<u8>)> = vec![];
+                for (label, dom) in [("no-instances", &empty), ("one-bare-service", &one)] {
+                    let roots = dom.root().children().to_vec();
+                    for c in [CompressionType::None, CompressionType::Lz4, CompressionType::Zstd] {
+                        if let Ok(b) = crate::rt::write_binary(dom, &roots, c) {
+                            degenerate.push((label, "bin", b));
+                        }
+                    }
+                    if let Ok(x) = crate::rt::write_xml(dom, &roots, XmlMode::Unknown) {
+                        degenerate.push((label, "xml", x));
+                    }
+                }
+                for (label, dec, d) in degenerate {
+                    let full = sup.w.call(&format!("D {} {}", dec, canon::hex(&d)), to);
+                    if full["o"] != "ok" {
+                        sup.rep.notes.push(format!("degenerate file {} ({}) does not decode: {}", label, dec, full));
+                        continue;
+                    }
+                    for k in 0..d.len() {
+                        let resp = sup.w.call(&format!("D {} {}", dec, canon::hex(&d[..k])), to);
+                        sup.rep.evaluations += 1;
+                        sup.rep.count(&format!("truncation.degenerate.{}.{}", label, dec));
+                        let replay = json!({"cmd": "c13", "mode": "replay", "decoder": dec, "input_hex": canon::hex(&d[..k]), "must-err": "1", "cut_at": k, "of": d.len()});
+                        sup.judge_decode(dec, &format!("{} {} cut at {}/{}", dec, label, k, d.len()), &d[..k], &resp, true, replay);
+                    }
+                    if dec == "bin" && d.len() > 40 {
+                        // the header followed by something that is not a chunk sequence ending in END
+                        let mut g = d[..32].to_vec();
+                        g.extend_from_slice(b"not a chunk at all, and certainly no END");
+                        let resp = sup.w.call(&format!("D bin {}", canon::hex(&g)), to);
+                        sup.rep.evaluations += 1;
+                        let replay = json!({"cmd": "c13", "mode": "replay", "decoder": "bin", "input_hex": canon::hex(&g), "must-err": "1"});
+                        sup.judge_decode("bin", &format!("header of a {} file followed by garbage", label), &g, &resp, true, replay);
+                    }
+                    sup.rep.nontrivial(crate::rng::fnv64(&d));
+                }
+            }
             let mut i = shard;
             while i < files {
                 let kind = KINDS[(i as usize) % KINDS.len()];
